@@ -70,19 +70,105 @@ pub struct Variant {
     /// native_data_owned, builder_owned)
     pub owned: bool,
     pub wrap: Wrap,
+    /// after every single builder call, query the intermediate builder (`calculate_size()` and a
+    /// `write_into` a scratch buffer) before making the next call: the observation must not change
+    /// what the finished builder produces (a builder that caches a size, or any other interior
+    /// state, across further configuration calls is exposed by this flavour)
+    pub probe: bool,
 }
 
 impl Variant {
-    pub const PLAIN: Variant = Variant { owned: false, wrap: Wrap::None };
+    pub const PLAIN: Variant = Variant { owned: false, wrap: Wrap::None, probe: false };
+    pub const PROBED: Variant = Variant { owned: false, wrap: Wrap::None, probe: true };
+    pub fn new(owned: bool, wrap: Wrap) -> Variant {
+        Variant { owned, wrap, probe: false }
+    }
+    /// the eight unprobed flavours, then the two probed ones (borrowed / owned, bare builder)
     pub fn all() -> Vec<Variant> {
         let mut v = Vec::new();
         for owned in [false, true] {
             for wrap in WRAPS {
-                v.push(Variant { owned, wrap });
+                v.push(Variant { owned, wrap, probe: false });
+            }
+        }
+        v.push(Variant { owned: false, wrap: Wrap::None, probe: true });
+        v.push(Variant { owned: true, wrap: Wrap::None, probe: true });
+        v
+    }
+    /// every combination: owned x wrap x probe (16)
+    pub fn full() -> Vec<Variant> {
+        let mut v = Vec::new();
+        for probe in [false, true] {
+            for owned in [false, true] {
+                for wrap in WRAPS {
+                    v.push(Variant { owned, wrap, probe });
+                }
             }
         }
         v
     }
+}
+
+thread_local! {
+    static PROBE_BUF: std::cell::RefCell<Vec<u8>> = std::cell::RefCell::new(vec![0u8; 4096]);
+}
+
+/// The probe of the `probe` flavour: query an intermediate builder, then hand it back unchanged.
+#[inline]
+pub fn pr<W: RtcpPacketWriter>(w: W, on: bool) -> W {
+    if on {
+        PROBE_BUF.with(|b| {
+            if let Ok(mut b) = b.try_borrow_mut() {
+                let _ = w.calculate_size();
+                let _ = w.get_padding();
+                let _ = DynW(&w).write_into(&mut b[..]);
+            }
+        });
+    }
+    w
+}
+
+/// In a list of `n` adds, the positions after which the probe flavour queries the builder: the first
+/// three, every power of two, and the last (probing after every one of 65 536 adds would make the
+/// harness itself quadratic).
+#[inline]
+pub fn probe_at(i: usize, n: usize) -> bool {
+    i < 3 || i + 1 == n || (i + 1).is_power_of_two()
+}
+
+/// The same probe for the two SDES part builders (they are not `RtcpPacketWriter`s but have their own `write_into`).
+#[inline]
+pub fn pr_chunk<'a>(w: SdesChunkBuilder<'a>, on: bool) -> SdesChunkBuilder<'a> {
+    if on {
+        PROBE_BUF.with(|b| {
+            if let Ok(mut b) = b.try_borrow_mut() {
+                let _ = w.write_into(&mut b[..0]);
+                let _ = w.write_into(&mut b[..]);
+            }
+        });
+    }
+    w
+}
+#[inline]
+pub fn pr_item<'a>(w: SdesItemBuilder<'a>, on: bool) -> SdesItemBuilder<'a> {
+    if on {
+        PROBE_BUF.with(|b| {
+            if let Ok(mut b) = b.try_borrow_mut() {
+                let _ = w.write_into(&mut b[..0]);
+                let _ = w.write_into(&mut b[..]);
+            }
+        });
+    }
+    w
+}
+
+/// `ch!(on; start, .call(args), .call(args) ...)`: a builder call chain with a probe after every call.
+macro_rules! ch {
+    ($on:expr; $e:expr $(, . $m:ident ( $($a:expr),* ))* $(,)?) => {{
+        let b = pr($e, $on);
+        $( let b = pr(b.$m($($a),*), $on); )*
+        b
+    }};
 }
 
 pub fn rb_builder(b: &Rb) -> ReportBlockBuilder {
@@ -128,6 +214,42 @@ pub fn chunk_builder<'a>(c: &'a Chunk, owned: bool) -> SdesChunkBuilder<'a> {
     cb
 }
 
+pub fn chunk_builder_p<'a>(c: &'a Chunk, owned: bool, on: bool) -> SdesChunkBuilder<'a> {
+    if !on {
+        return chunk_builder(c, owned);
+    }
+    let mut cb = pr_chunk(SdesChunk::builder(c.ssrc), on);
+    for (i, it) in c.items.iter().enumerate() {
+        let on = on && probe_at(i, c.items.len());
+        let mut b = pr_item(SdesItem::builder(it.ty, as_str(&it.value)), on);
+        if !it.prefix.is_empty() {
+            b = pr_item(b.prefix(&it.prefix[..]), on);
+        }
+        cb = pr_chunk(if owned { cb.add_item_owned(b) } else { cb.add_item(b) }, on);
+    }
+    cb
+}
+pub fn nack_builder_p(v: &[u16], on: bool) -> NackBuilder {
+    let mut b = pr(Nack::builder(), on);
+    for (i, s) in v.iter().enumerate() {
+        b = pr(b.add_rtp_sequence(*s), on && probe_at(i, v.len()));
+    }
+    b
+}
+pub fn fir_builder_p(v: &[(u32, u8)], on: bool) -> FirBuilder {
+    let mut b = pr(Fir::builder(), on);
+    for (i, (s, q)) in v.iter().enumerate() {
+        b = pr(b.add_ssrc(*s, *q), on && probe_at(i, v.len()));
+    }
+    b
+}
+pub fn sli_builder_p(v: &[(u16, u16, u8)], on: bool) -> SliBuilder {
+    let mut b = pr(Sli::builder(), on);
+    for (i, (a, n, p)) in v.iter().enumerate() {
+        b = pr(b.add_lost_macroblock(*a, *n, *p), on && probe_at(i, v.len()));
+    }
+    b
+}
 pub fn nack_builder(v: &[u16]) -> NackBuilder {
     let mut b = Nack::builder();
     for s in v {
@@ -178,103 +300,96 @@ where
     }
 }
 
-macro_rules! fb_finish {
-    ($kind:expr, $fci_ref:expr, $sender:expr, $media:expr, $pad:expr, $wrap:expr, $f:expr) => {
-        match $kind {
-            Kind::Transport => finish(TransportFeedback::builder($fci_ref).sender_ssrc($sender).media_ssrc($media).padding($pad), $wrap, $f),
-            Kind::Payload => finish(PayloadFeedback::builder($fci_ref).sender_ssrc($sender).media_ssrc($media).padding($pad), $wrap, $f),
-        }
-    };
-}
-macro_rules! fb_finish_owned {
-    ($kind:expr, $fci:expr, $sender:expr, $media:expr, $pad:expr, $wrap:expr, $f:expr) => {
-        match $kind {
-            Kind::Transport => finish(TransportFeedback::builder_owned($fci).sender_ssrc($sender).media_ssrc($media).padding($pad), $wrap, $f),
-            Kind::Payload => finish(PayloadFeedback::builder_owned($fci).sender_ssrc($sender).media_ssrc($media).padding($pad), $wrap, $f),
-        }
-    };
-}
-
 /// Realise configuration `p` with the crate's builders (in the flavour `var`) and hand the
 /// resulting writer to `f`.
 pub fn with_writer(p: &Pkt, var: Variant, f: &mut dyn FnMut(&dyn RtcpPacketWriter)) {
     let wrap = var.wrap;
+    let on = var.probe;
     match p {
         Pkt::Sr { ssrc, ntp, rtp, pc, oc, blocks, pad } => {
-            let mut b = SenderReport::builder(*ssrc).ntp_timestamp(*ntp).rtp_timestamp(*rtp).packet_count(*pc).octet_count(*oc).padding(*pad);
-            for rb in blocks {
-                b = b.add_report_block(rb_builder(rb));
+            let mut b = ch!(on; SenderReport::builder(*ssrc), .ntp_timestamp(*ntp), .rtp_timestamp(*rtp), .packet_count(*pc), .octet_count(*oc), .padding(*pad));
+            for (i, rb) in blocks.iter().enumerate() {
+                b = pr(b.add_report_block(rb_builder(rb)), on && probe_at(i, blocks.len()));
             }
             finish(b, wrap, f)
         }
         Pkt::Rr { ssrc, blocks, pad } => {
-            let mut b = ReceiverReport::builder(*ssrc).padding(*pad);
-            for rb in blocks {
-                b = b.add_report_block(rb_builder(rb));
+            let mut b = ch!(on; ReceiverReport::builder(*ssrc), .padding(*pad));
+            for (i, rb) in blocks.iter().enumerate() {
+                b = pr(b.add_report_block(rb_builder(rb)), on && probe_at(i, blocks.len()));
             }
             finish(b, wrap, f)
         }
         Pkt::Sdes { chunks, pad } => {
-            let mut b = Sdes::builder().padding(*pad);
-            for c in chunks {
-                b = b.add_chunk(chunk_builder(c, var.owned));
+            let mut b = ch!(on; Sdes::builder(), .padding(*pad));
+            for (i, c) in chunks.iter().enumerate() {
+                let on = on && probe_at(i, chunks.len());
+                b = pr(b.add_chunk(chunk_builder_p(c, var.owned, on)), on);
             }
             finish(b, wrap, f)
         }
         Pkt::Bye { ssrcs, reason, pad } => {
-            let mut b = Bye::builder().padding(*pad);
-            for s in ssrcs {
-                b = b.add_source(*s);
+            let mut b = ch!(on; Bye::builder(), .padding(*pad));
+            for (i, s) in ssrcs.iter().enumerate() {
+                b = pr(b.add_source(*s), on && probe_at(i, ssrcs.len()));
             }
             if var.owned {
-                let b = if reason.is_empty() { b.reason_owned("") } else { b.reason_owned(reason.as_str()) };
+                let b = pr(if reason.is_empty() { b.reason_owned("") } else { b.reason_owned(reason.as_str()) }, on);
                 finish(b, wrap, f)
             } else {
                 if !reason.is_empty() {
-                    b = b.reason(reason.as_str());
+                    b = pr(b.reason(reason.as_str()), on);
                 }
                 finish(b, wrap, f)
             }
         }
         Pkt::App { ssrc, subtype, name, data, pad } => {
-            let b = App::builder(*ssrc, name.as_str()).subtype(*subtype).data(&data[..]).padding(*pad);
+            let b = ch!(on; App::builder(*ssrc, name.as_str()), .subtype(*subtype), .data(&data[..]), .padding(*pad));
             finish(b, wrap, f)
         }
         Pkt::Unknown { pt, count, data, pad } => {
-            let b = Unknown::builder(*pt, &data[..]).count(*count).padding(*pad);
+            let b = ch!(on; Unknown::builder(*pt, &data[..]), .count(*count), .padding(*pad));
             finish(b, wrap, f)
         }
         Pkt::Fb { kind, sender, media, fci, pad } => {
             let (kind, sender, media, pad) = (*kind, *sender, *media, *pad);
+            macro_rules! fbb {
+                ($ctor:ident, $fci:expr) => {
+                    match kind {
+                        Kind::Transport => finish(ch!(on; TransportFeedback::$ctor($fci), .sender_ssrc(sender), .media_ssrc(media), .padding(pad)), wrap, f),
+                        Kind::Payload => finish(ch!(on; PayloadFeedback::$ctor($fci), .sender_ssrc(sender), .media_ssrc(media), .padding(pad)), wrap, f),
+                    }
+                };
+            }
             if var.owned {
                 match fci {
-                    Fci::Nack(v) => fb_finish_owned!(kind, nack_builder(v), sender, media, pad, wrap, f),
-                    Fci::Fir(v) => fb_finish_owned!(kind, fir_builder(v), sender, media, pad, wrap, f),
-                    Fci::Sli(v) => fb_finish_owned!(kind, sli_builder(v), sender, media, pad, wrap, f),
-                    Fci::Rpsi { pt, data, overrun } => fb_finish_owned!(kind, rpsi_builder_owned(*pt, data, *overrun), sender, media, pad, wrap, f),
-                    Fci::Pli => fb_finish_owned!(kind, Pli::builder(), sender, media, pad, wrap, f),
+                    Fci::Nack(v) => fbb!(builder_owned, nack_builder_p(v, on)),
+                    Fci::Fir(v) => fbb!(builder_owned, fir_builder_p(v, on)),
+                    Fci::Sli(v) => fbb!(builder_owned, sli_builder_p(v, on)),
+                    Fci::Rpsi { pt, data, overrun } => fbb!(builder_owned, ch!(on; Rpsi::builder(), .payload_type(*pt), .native_data_owned(&data[..], *overrun))),
+                    Fci::Pli => fbb!(builder_owned, pr(Pli::builder(), on)),
                 }
             } else {
                 match fci {
                     Fci::Nack(v) => {
-                        let fb = nack_builder(v);
-                        fb_finish!(kind, &fb, sender, media, pad, wrap, f)
+                        let fb = nack_builder_p(v, on);
+                        fbb!(builder, &fb)
                     }
                     Fci::Fir(v) => {
-                        let fb = fir_builder(v);
-                        fb_finish!(kind, &fb, sender, media, pad, wrap, f)
+                        let fb = fir_builder_p(v, on);
+                        fbb!(builder, &fb)
                     }
                     Fci::Sli(v) => {
-                        let fb = sli_builder(v);
-                        fb_finish!(kind, &fb, sender, media, pad, wrap, f)
+                        let fb = sli_builder_p(v, on);
+                        fbb!(builder, &fb)
                     }
                     Fci::Rpsi { pt, data, overrun } => {
-                        let fb = rpsi_builder(*pt, data, *overrun);
-                        fb_finish!(kind, &fb, sender, media, pad, wrap, f)
+                        let fb = ch!(on; Rpsi::builder(), .payload_type(*pt), .native_data(&data[..], *overrun));
+                        fbb!(builder, &fb)
                     }
                     Fci::Pli => {
-                        let fb = Pli::builder();
-                        fb_finish!(kind, &fb, sender, media, pad, wrap, f)
+                        let fb = pr(Pli::builder(), on);
+                        fbb!(builder, &fb)
                     }
                 }
             }
